@@ -25,7 +25,8 @@ from the Rust source by translator T1 into `VrpModel/Generated/C11Schema.lean`.
             `ser(parse(ser d)) = ser d` for every `d`.
 
 Out of model: duplicate keys (serde rejects, `lookup` takes the first; never produced by `encode`),
-a struct/enum given as JSON array, non-finite floats (serde_json
+a struct/enum given as JSON array, a tag given as variant index (serde accepts it only when the enum is
+read from buffered content, i.e. inside another tagged / untagged enum), non-finite floats (serde_json
 writes `null` for them, which is not a number any more: `encode` fails on them), f64 text printing
 and parsing.
 -/
@@ -190,13 +191,6 @@ def decode (env : Env) : Nat → Ty → Json → Option Val
           match findIdx name vars 0 with
           | some (i, fs) => (decodeFields (decode env n) fs kvs).map (fun vs => .variant i (.record vs))
           | none => none
-      | some (.int i) =>
-          -- serde's variant identifier also accepts the variant index (`visit_u64`)
-          if 0 ≤ i then
-            match vars[i.toNat]? with
-            | some (_, fs) => (decodeFields (decode env n) fs kvs).map (fun vs => .variant i.toNat (.record vs))
-            | none => none
-          else none
       | _ => none
   | _+1, .units names, .str s =>
       let i := names.idxOf s
